@@ -78,8 +78,21 @@ def one_case(mon, rng, c):
     index_kind = rng.choice(["flat", "slow", "jumpy", "jumpy"])
     n = rng.choice([30, 80, 220])
     toks = rng.sample([("WETH", 18), ("USDC", 6), ("WBTC", 8), ("DAI", 18), ("LINK", 18)], rng.randint(2, 4))
+    hole = rng.random() < 0.3
+    if hole:
+        # the market also lists a reserve nobody touches whose file has a hole (no records for a stretch of minutes, NaN in
+        # the joined frame): the other reserves' rows are their own all the same
+        toks = list(toks) + [("HOLE", 18)]
     w = W.AaveWorld(rng, n=n, tokens=toks, index_kind=index_kind, all_flags=True, price_kind="walk")
+    if hole:
+        a = rng.randint(1, max(1, n // 3))
+        b = rng.randint(a + 1, n - 1)
+        f = w.data["HOLE"]
+        w.data["HOLE"] = f[(f.index < w.index[a]) | (f.index >= w.index[b])]
+        mon.cls("world/reserve-with-a-hole")
     m = w.market()
+    if hole:
+        w.tokens = [t for t in w.tokens if t.name != "HOLE"]
     # mostly a deep wallet; sometimes a shallow one, so that supplies (and repayments) larger than the wallet are requested
     big = {t: Decimal(10) ** rng.choice([12, 12, 12, 4, 1]) for t in w.tokens}
     bar = 0
